@@ -80,6 +80,20 @@ m("m49-bitmap-fresh", ["C17"], DW, "        self.received.clear();\n        if s
 m("m50-new-ignores-work", ["C17"], H, "        let mut work = work.unwrap_or_default();\n        Self::reset_work(original_count, recovery_count, shard_bytes, &mut work)?;\n        Ok(Self { engine, work })\n    }\n\n    fn reset(\n        &mut self,\n        original_count: usize,\n        recovery_count: usize,\n        shard_bytes: usize,\n    ) -> Result<(), Error> {\n        Self::reset_work(original_count, recovery_count, shard_bytes, &mut self.work)\n    }\n}\n\n// ======================================================================\n// HighRateDecoder - PRIVATE", "        drop(work);\n        let mut work = DecoderWork::new();\n        Self::reset_work(original_count, recovery_count, shard_bytes, &mut work)?;\n        Ok(Self { engine, work })\n    }\n\n    fn reset(\n        &mut self,\n        original_count: usize,\n        recovery_count: usize,\n        shard_bytes: usize,\n    ) -> Result<(), Error> {\n        Self::reset_work(original_count, recovery_count, shard_bytes, &mut self.work)\n    }\n}\n\n// ======================================================================\n// HighRateDecoder - PRIVATE", "HighRateDecoder::new ignores the recycled working space")
 m("m51-decode-scratch-on-heap", ["C17"], H, "        let mut erasures = [0; GF_ORDER];\n\n        for i in 0..recovery_count {", "        let mut erasures: Box<[engine::GfElement; GF_ORDER]> = vec![0; GF_ORDER].into_boxed_slice().try_into().unwrap();\n\n        for i in 0..recovery_count {", "BENIGN refactor: decode keeps its 128 KiB erasure scratch on the heap (fixed size, not shard-proportional): must NOT be flagged")
 
+m("m60-avx2-ifft-m23-sentinel-branch", ["C03","C15"], AV, """        if log_m23 == GF_MODULUS {
+            utils::xor(s3, s2);
+        } else {
+            self.ifft_butterfly_partial(s2, s3, log_m23);
+        }
+
+        // SECOND LAYER""", """        if log_m23 == GF_MODULUS {
+            utils::xor(s2, s3);
+        } else {
+            self.ifft_butterfly_partial(s2, s3, log_m23);
+        }
+
+        // SECOND LAYER""", "avx2 ifft: sentinel branch of the third multiplier xors the wrong way (only reachable with unaligned skew offsets; found uncovered by line coverage of the quick tiers)")
+
 # ---- BENIGN refactors: the properties still hold; no check may flag them
 ALLP = [f"C{i:02d}" for i in range(1,18)]
 m("b01-detection-cached-in-static", ALLP, DE, """impl DefaultEngine {
